@@ -453,7 +453,7 @@ func cfModules(c *Ctx, sc *Scenario) {
 		if !ok {
 			return nil, nil, nil, false
 		}
-		um := c.Prog.LookupMethod(t, nil, "UnmarshalCaddyfile")
+		um := methodOf(c, t, "UnmarshalCaddyfile")
 		if um == nil || len(um.Blocks) == 0 {
 			return nil, nil, nil, false
 		}
@@ -652,10 +652,11 @@ type cfCase struct {
 }
 
 type cfTable struct {
-	fn     string
-	source string
-	pre    int // tokens the caller has consumed before it hands the dispenser over (0: the usual fresh dispenser)
-	cases  []cfCase
+	fn          string
+	source      string
+	noProvision bool // Provision needs what the tables cannot give (files, the module registry at run time)
+	pre         int  // tokens the caller has consumed before it hands the dispenser over (0: the usual fresh dispenser)
+	cases       []cfCase
 }
 
 func c15Tables(c *Ctx, r *Report, rule string) {
@@ -742,7 +743,56 @@ func c15Tables(c *Ctx, r *Report, rule string) {
 					}
 				}
 			}
-			r.check(len(problems) == 0, rule, tb.fn, key, c.pos(fn.Pos()), fmt.Sprintf("%d path(s); %s", len(paths), tb.source), strings.Join(dedup(problems), "; "))
+			// "that JSON loads and provisions": where the module's Provision can be evaluated on the state the
+			// unmarshaller left, it must not fail for a documented configuration
+			provNote := ""
+			if cs.want != nil && len(problems) == 0 && len(paths) == 1 && !strings.Contains(cs.src, "{env.") { // (placeholders resolve at run time only)
+				if prov := methodOf(c, fn.Signature.Recv().Type(), "Provision"); prov != nil && len(prov.Blocks) > 0 && !tb.noProvision {
+					psc := &Scenario{Name: "provision after " + key, MaxVisit: 40, MaxPaths: 400, ConcreteCopy: true, FreshBase: 700000,
+						Params: map[string]SV{"recv": symRef("m", false), "p0": symOpaque("ctx")},
+						Heap:   map[string]SV{},
+					}
+					pbase := msgScenario(c, msgMatcher{fn: fname(prov)}, msgCase{})
+					psc.Inline = pbase.Inline
+					for k, v := range pbase.Heap {
+						if strings.HasPrefix(k, "global:") || strings.HasPrefix(k, "regexp:") {
+							psc.Heap[k] = v
+						}
+					}
+					for k, v := range paths[0].Heap {
+						if !strings.HasPrefix(k, "disp#") {
+							psc.Heap[k] = v
+						}
+					}
+					psc.Call = provisionModels(func(callee string, args []SV, ev *symEval, st *symState) (SV, bool) {
+						if callee == "time.LoadLocation" {
+							return SV{}, false // depends on the machine's zone database
+						}
+						if v, ok := timeModel(callee, args); ok {
+							return v, true
+						}
+						return pbase.Call(callee, args, ev, st)
+					})
+					ppaths, perr := evalPaths(prov, psc)
+					decided, fails := perr == nil && len(ppaths) > 0, ""
+					for _, pp := range ppaths {
+						if pp.Outcome != "return" || len(pp.Ret) != 1 || !pp.Ret[0].Known {
+							decided = false
+						} else if !pp.Ret[0].Nil {
+							fails = pp.Ret[0].Desc
+						}
+					}
+					switch {
+					case !decided:
+						provNote = "; provisioning not evaluated"
+					case fails != "" && len(ppaths) == 1:
+						problems = append(problems, "the configuration adapts but does not provision ("+fails+")")
+					default:
+						provNote = "; provisions"
+					}
+				}
+			}
+			r.check(len(problems) == 0, rule, tb.fn, key, c.pos(fn.Pos()), fmt.Sprintf("%d path(s)%s; %s", len(paths), provNote, tb.source), strings.Join(dedup(problems), "; "))
 		}
 	}
 }
@@ -855,6 +905,7 @@ var cfTables = []cfTable{
 			{"all options", "throttle {\n latency 100ms\n read_burst_size 4096\n read_bytes_per_second 1024.5\n total_read_burst_size 65536\n total_read_bytes_per_second 1e6\n}", map[string]string{"Latency": "100000000", "ReadBurstSize": "4096", "ReadBytesPerSecond": "1024.5", "TotalReadBurstSize": "65536", "TotalReadBytesPerSecond": "1e+06"}},
 			{"per-connection only, reversed order", "throttle {\n read_bytes_per_second 10\n read_burst_size 20\n}", map[string]string{"ReadBurstSize": "20", "ReadBytesPerSecond": "10", "TotalReadBurstSize": "0", "TotalReadBytesPerSecond": "0"}},
 			{"total only", "throttle {\n total_read_burst_size 7\n total_read_bytes_per_second 3\n}", map[string]string{"ReadBurstSize": "0", "ReadBytesPerSecond": "0", "TotalReadBurstSize": "7", "TotalReadBytesPerSecond": "3"}},
+			{"largest burst", "throttle {\n read_burst_size 2147483647\n}", map[string]string{"ReadBurstSize": "2147483647"}},
 			{"total burst before the per-connection burst", "throttle {\n total_read_burst_size 7\n read_burst_size 3\n}", map[string]string{"ReadBurstSize": "3", "TotalReadBurstSize": "7"}},
 			{"total rate before the per-connection rate", "throttle {\n total_read_bytes_per_second 7\n read_bytes_per_second 3\n}", map[string]string{"ReadBytesPerSecond": "3", "TotalReadBytesPerSecond": "7"}},
 			{"total_read_burst_size twice", "throttle {\n total_read_burst_size 1\n total_read_burst_size 2\n}", nil},
@@ -986,6 +1037,8 @@ var cfTables = []cfTable{
 			{"no address at all", "upstream {\n max_connections 5\n}", nil},
 			{"bare", "upstream", nil},
 			{"dial without value", "upstream {\n dial\n}", nil},
+			{"largest max_connections", "upstream a:1 {\n max_connections 2147483647\n}", map[string]string{"MaxConnections": "2147483647"}},
+			{"max_connections beyond 32 bits", "upstream a:1 {\n max_connections 2147483648\n}", nil},
 			{"max_connections twice", "upstream a:1 {\n max_connections 1\n max_connections 2\n}", nil},
 			{"max_connections not a number", "upstream a:1 {\n max_connections many\n}", nil},
 			{"tls twice", "upstream a:1 {\n tls\n tls\n}", nil},
@@ -1008,6 +1061,9 @@ var cfTables = []cfTable{
 			{"upstream options after shortcut upstreams", "proxy a:1 {\n upstream b:2\n upstream {\n  dial c:3 d:4\n  max_connections 7\n }\n}", map[string]string{"Upstreams": `[{Dial:["a:1"]} {Dial:["b:2"]} {Dial:["c:3" "d:4"] MaxConnections:7}]`}},
 			{"active option, then unhealthy_connection_count as the first passive one", "proxy a:1 {\n health_port 81\n health_interval 5s\n unhealthy_connection_count 5\n}", map[string]string{"HealthChecks": `{Active:{Interval:5000000000 Port:81} Passive:{UnhealthyConnectionCount:5}}`}},
 			{"passive option, then active ones", "proxy a:1 {\n fail_duration 1s\n health_timeout 2s\n}", map[string]string{"HealthChecks": `{Active:{Timeout:2000000000} Passive:{FailDuration:1000000000}}`}},
+			{"highest port", "proxy a:1 {\n health_port 65535\n}", map[string]string{"HealthChecks": `{Active:{Port:65535}}`}},
+			{"large counts", "proxy a:1 {\n max_fails 100000\n unhealthy_connection_count 2147483647\n}", map[string]string{"HealthChecks": `{Passive:{MaxFails:100000 UnhealthyConnectionCount:2147483647}}`}},
+			{"count beyond 32 bits", "proxy a:1 {\n max_fails 2147483648\n}", nil},
 			{"load balancing policy without arguments", "proxy a:1 b:2 {\n lb_policy round_robin\n}", map[string]string{"LoadBalancing": `{SelectionPolicyRaw:RoundRobinSelection{}+policy=round_robin}`}},
 			{"load balancing policy with an argument", "proxy a:1 b:2 {\n lb_policy random_choose 3\n lb_try_duration 1s\n}", map[string]string{"LoadBalancing": `{SelectionPolicyRaw:RandomChoiceSelection{Choose:3}+policy=random_choose TryDuration:1000000000}`}},
 			{"unknown load balancing policy", "proxy a:1 {\n lb_policy fastest\n}", nil},
